@@ -260,7 +260,10 @@ class Environment:
                 until = Event(self)
                 until._ok = True
                 until._value = None
-                self.schedule(until, URGENT, at - self.now)
+                # Queue it at exactly `at`: now + (at - now) is not always `at`
+                # in floating point, and the stop must neither overtake nor
+                # trail events due at that instant.
+                heappush(self._queue, (at, URGENT, next(self._eid), until))
                 # The sentinel is private to this call: nobody else can wait
                 # for it, so stopping from inside its dispatch loses nobody.
                 until.callbacks.append(StopSimulation.callback)
